@@ -38,13 +38,14 @@ class ArgfindGroup(Kernel):
         eng.int_attrs = set(eng.int_attrs) | {"value"}
         L = self.L = z3.Int("marked_axes_length")
         k = z3.Int("k")
-        mk = self.mk = z3.Function("mk", I, I)  # mk(i) = number of bracketed positions below i
-        um = self.um = z3.Function("um", I, I)  # um(i) = number of un-bracketed positions below i
         isM = lambda t: marked(ex[t])  # noqa
         self.isM = isM
-        i = z3.Int("i")
-        eng.axioms += [mk(0) == 0, um(0) == 0,
-                       z3.ForAll([i], z3.Implies(z3.And(0 <= i, i < n), z3.And(mk(i + 1) == mk(i) + z3.If(isM(i), 1, 0), um(i + 1) == um(i) + z3.If(isM(i), 0, 1))))]
+
+        # term seeding: touch(v) is true for every v (definitional); mentioning touch(M[e]) puts the ground term M[e] in front of the solver so that
+        # quantified facts with the pattern M[j] are instantiated at j = e (E-matching cannot invent an arithmetic index like it - a0 by itself)
+        touch = z3.Function("touch", I, B)
+        v_ = z3.Int("v_")
+        eng.axioms += [z3.ForAll([v_], touch(v_))]
 
         def tensor(shape_arr, tag):
             t = SRec("tensor", ndim=SInt(n), shape=SSeq(shape_arr, n, "int", "tuple"))
@@ -70,23 +71,30 @@ class ArgfindGroup(Kernel):
                               "np.prod": SContract(lambda e, p, av, kw: SInt(L), "np.prod of the bracketed lengths (value not interpreted here)"),
                               "classical.transpose": SContract(c_transpose, "classical.transpose: result shape[k] = shape[perm[k]]"),
                               "classical.reshape": SContract(c_reshape, "classical.reshape")})
-        # loop 0: un-bracketed positions -> perm ; loop 1: bracketed positions -> perm ; loop 2: new_shape
-        U = um(n)
 
+        def group(perm, lo, hi, it, want_marked):
+            """entries lo..hi-1 of perm: positions below `it` of the wanted kind, strictly increasing, and every such position below `it` occurs"""
+            t, u, j = fresh("t"), fresh("u"), fresh("j")
+            P = lambda q: z3.Select(perm.arr, q)  # noqa
+            kind = (lambda q: isM(q)) if want_marked else (lambda q: z3.Not(isM(q)))
+            return z3.And(z3.ForAll([t], z3.Implies(z3.And(lo <= t, t < hi), z3.And(0 <= P(t), P(t) < it, kind(P(t))))),
+                          z3.ForAll([t, u], z3.Implies(z3.And(lo <= t, t < u, u < hi), P(t) < P(u))),
+                          z3.ForAll([j], z3.Implies(z3.And(0 <= j, j < it, kind(j)), z3.Exists([t], z3.And(lo <= t, t < hi, P(t) == j)))))
+
+        self.group = group
+
+        # loop 0: un-bracketed positions -> perm ; loop 1: bracketed positions -> perm ; loop 2: new_shape
         def inv0(e, p, it):
             perm = e.as_seq(p.lookup("perm"), p)
             ne = e.as_seq(p.lookup("new_expr"), p, ek="obj")
-            t = fresh("t")
-            return z3.And(perm.n == um(it), ne.n == perm.n, um(it) + mk(it) == it, um(it) >= 0, mk(it) >= 0,
-                          z3.ForAll([t], z3.Implies(z3.And(0 <= t, t < perm.n), z3.And(0 <= z3.Select(perm.arr, t), z3.Select(perm.arr, t) < it, z3.Not(isM(z3.Select(perm.arr, t))), um(z3.Select(perm.arr, t)) == t))))
+            return z3.And(perm.n >= 0, perm.n <= it, ne.n == perm.n, group(perm, 0, perm.n, it, False))
 
         def inv1(e, p, it):
             perm = e.as_seq(p.lookup("perm"), p)
             ne = e.as_seq(p.lookup("new_expr"), p, ek="obj")
-            t = fresh("t")
-            return z3.And(perm.n == U + mk(it), ne.n == perm.n, U + mk(n) == n, um(it) + mk(it) == it, um(it) >= 0, mk(it) >= 0,
-                          z3.ForAll([t], z3.Implies(z3.And(0 <= t, t < U), z3.And(0 <= z3.Select(perm.arr, t), z3.Select(perm.arr, t) < n, z3.Not(isM(z3.Select(perm.arr, t))), um(z3.Select(perm.arr, t)) == t))),
-                          z3.ForAll([t], z3.Implies(z3.And(U <= t, t < perm.n), z3.And(0 <= z3.Select(perm.arr, t), z3.Select(perm.arr, t) < it, isM(z3.Select(perm.arr, t)), mk(z3.Select(perm.arr, t)) == t - U))))
+            U0 = e.as_seq(p.ghost["entry1"]["perm"], p).n
+            p.ghost["U0"] = U0
+            return z3.And(0 <= U0, U0 <= perm.n, ne.n == perm.n, group(perm, 0, U0, n, False), group(perm, U0, perm.n, it, True))
 
         def inv2(e, p, it):
             ns = e.as_seq(p.lookup("new_shape"), p)
@@ -95,15 +103,75 @@ class ArgfindGroup(Kernel):
             a0, m = z3.Select(M.arr, 0), M.n
             t = fresh("t")
             ln = z3.If(it <= a0, it, z3.If(it < a0 + m, a0 + 1, it - m + 1))
-            return z3.And(ns.n == ln, z3.ForAll([t], z3.Implies(z3.And(0 <= t, t < ns.n), z3.Select(ns.arr, t) == z3.If(t < a0, z3.Select(cur, t), z3.If(t == a0, L, z3.Select(cur, t + m - 1))))))
+            return z3.And(ns.n == ln, touch(z3.Select(M.arr, it - a0)), self.new_shape_spec(ns, cur, a0, m))
 
         eng.invariants[0], eng.invariants[1], eng.invariants[2] = inv0, inv1, inv2
         eng.local_types = {"new_expr": ("list", "obj"), "perm": ("list", "int"), "new_shape": ("list", "int")}
+
+        # ghost code in front of `unmarked_expr = ...` (both branches have joined the straight-line code again): closed form of marked_axes
+        def ghost_closed_form(e, p):
+            M = e.as_seq(p.lookup("marked_axes"), p)
+            t = fresh("t")
+            def cut(name, fact, assume=None):
+                e.oblige(name, p, fact, "post")
+                p.pc.append(fact if assume is None else assume)
+
+            if p.ghost.get("transpose") is None:
+                # contiguous branch: consecutive entries differ by one (the `all(...)` test, or fewer than two entries) -> lemma L4
+                a0_, j_ = z3.Select(M.arr, 0), fresh("j")
+                cut("ghost:every entry of marked_axes is a bracketed position", z3.ForAll([t], z3.Implies(z3.And(0 <= t, t < M.n), z3.And(0 <= z3.Select(M.arr, t), z3.Select(M.arr, t) < n, isM(z3.Select(M.arr, t))))))
+                cut("ghost:every bracketed position is an entry of marked_axes", z3.ForAll([t], z3.Implies(z3.And(0 <= t, t < n, isM(t)), z3.Exists([j_], z3.And(0 <= j_, j_ < M.n, z3.Select(M.arr, j_) == t)))))
+                e.oblige("lemma-premise:L4:consecutive bracketed positions differ by one (is_contiguous holds on this branch)", p,
+                         z3.ForAll([t], z3.Implies(z3.And(0 <= t, t + 1 < M.n), z3.Select(M.arr, t + 1) == z3.Select(M.arr, t) + 1)), "post")
+                e.assumed.add("ghost lemma L4 unit_steps_closed_form (lemmas/Lemmas.lean, checked by Lean 4 + Mathlib); premise is an obligation of this kernel")
+                p.pc.append(z3.ForAll([t], z3.Implies(z3.And(0 <= t, t < M.n), z3.Select(M.arr, t) == a0_ + t)))
+                # (proved with the seeded term touch(M[t]); assumed without it - touch is true everywhere by its defining axiom)
+                cut("ghost:the positions marked_axes[0] + j (j < m) are bracketed and in range", z3.ForAll([t], z3.Implies(z3.And(0 <= t, t < M.n, touch(z3.Select(M.arr, t))), z3.And(0 <= a0_ + t, a0_ + t < n, isM(a0_ + t)))),
+                    assume=z3.ForAll([t], z3.Implies(z3.And(0 <= t, t < M.n), z3.And(0 <= a0_ + t, a0_ + t < n))))
+                p.ghost["block_is_bracketed"] = z3.ForAll([t], z3.Implies(z3.And(0 <= t, t < M.n), isM(a0_ + t)))
+                p.pc.append(p.ghost["block_is_bracketed"])  # second half of the fact just proved
+                cut("ghost:at least one bracketed position", M.n >= 1)
+                cut("ghost:first and last entry of marked_axes", z3.And(z3.Select(M.arr, M.n - 1) == a0_ + M.n - 1, 0 <= a0_, z3.Select(M.arr, M.n - 1) < n))
+                cut("ghost:the block ends inside the tensor", z3.And(0 <= a0_, a0_ + M.n <= n))
+                cut("ghost:every bracketed position lies in marked_axes[0] .. marked_axes[0]+m-1", z3.ForAll([t], z3.Implies(z3.And(0 <= t, t < n, isM(t)), z3.And(a0_ <= t, t < a0_ + M.n))))
+            else:
+                # transposed branch: marked_axes = list(range(n - m, n)); the number of bracketed entries of perm equals m (lemma L1: both
+                # are duplicate-free enumerations of the bracketed positions), so the bracketed block of perm is exactly [n - m, n)
+                perm = p.ghost["transpose"]
+                U0 = p.ghost["U0"]
+                M0 = p.ghost["marked_axes_filter"]
+                j, x = fresh("j"), fresh("x")
+                memM = z3.Exists([j], z3.And(0 <= j, j < M0.n, z3.Select(M0.arr, j) == x))
+                memP = z3.Exists([j], z3.And(U0 <= j, j < perm.n, z3.Select(perm.arr, j) == x))
+                u = fresh("u")
+                e.oblige("lemma-premise:L1:the comprehension of bracketed positions is duplicate-free", p, z3.ForAll([t, u], z3.Implies(z3.And(0 <= t, t < u, u < M0.n), z3.Select(M0.arr, t) != z3.Select(M0.arr, u))), "post")
+                e.oblige("lemma-premise:L1:the bracketed block of perm is duplicate-free", p, z3.ForAll([t, u], z3.Implies(z3.And(U0 <= t, t < u, u < perm.n), z3.Select(perm.arr, t) != z3.Select(perm.arr, u))), "post")
+                e.oblige("lemma-premise:L1:both enumerate exactly the bracketed positions", p, z3.ForAll([x], memM == memP), "post")
+                e.assumed.add("ghost lemma L1 nodup_same_members_same_length (lemmas/Lemmas.lean, checked by Lean 4 + Mathlib); premises are obligations of this kernel")
+                p.pc.append(perm.n - U0 == M0.n)
+                # and perm as a whole enumerates range(n) without duplicates -> len(perm) == n (L1 against the identity list)
+                e.oblige("lemma-premise:L1:perm is duplicate-free", p, z3.ForAll([t, u], z3.Implies(z3.And(0 <= t, t < u, u < perm.n), z3.Select(perm.arr, t) != z3.Select(perm.arr, u))), "post")
+                e.oblige("lemma-premise:L1:every entry of perm is in range(n)", p, z3.ForAll([j], z3.Implies(z3.And(0 <= j, j < perm.n), z3.And(0 <= z3.Select(perm.arr, j), z3.Select(perm.arr, j) < n))), "post")
+                for kind_, cond_ in (("bracketed", isM(x)), ("un-bracketed", z3.Not(isM(x)))):
+                    cut(f"lemma-premise:L1:every {kind_} position of range(n) is an entry of perm", z3.ForAll([x], z3.Implies(z3.And(0 <= x, x < n, cond_), z3.Exists([j], z3.And(0 <= j, j < perm.n, z3.Select(perm.arr, j) == x)))))
+                p.pc.append(perm.n == n)
+
+        def ghost_remember_filter(e, p):
+            p.ghost["marked_axes_filter"] = e.as_seq(p.lookup("marked_axes"), p)
+
+        eng.ghost_before = [("is_contiguous =", ghost_remember_filter), ("unmarked_expr =", ghost_closed_form)]
         env = {"expr": SSeq(ex, n, "obj", "list"), "tensor": tensor(sh, "input"), "classical": SObj(z3.Const("classical", Obj)), "stage3": SObj(z3.Const("stage3", Obj)),
                "np": SObj(z3.Const("np", Obj)), "kwargs": SDict({})}
         pre = [n >= 1, z3.ForAll([k], z3.Implies(z3.And(0 <= k, k < n), sh[k] == value(ex[k]))),
                z3.Exists([k], z3.And(0 <= k, k < n, isM(k)))]  # at least one bracketed axis (einx_from_namedtensor rejects argmax/argmin without brackets with a SemanticError)
         return env, pre, {}
+
+    def new_shape_spec(self, ns, cur, a0, m):
+        """entries before the block are the tensor's lengths, the block's slot holds the product length, entries after it are the lengths shifted by m - 1"""
+        t = fresh("t")
+        return z3.And(z3.ForAll([t], z3.Implies(z3.And(0 <= t, t < ns.n, t < a0), z3.Select(ns.arr, t) == z3.Select(cur, t))),
+                      z3.Implies(a0 < ns.n, z3.Select(ns.arr, a0) == self.L),
+                      z3.ForAll([t], z3.Implies(z3.And(a0 < t, t < ns.n), z3.Select(ns.arr, t) == z3.Select(cur, t + m - 1))))
 
     def post(self, eng, out, p):
         if out is not None and not isinstance(out, Return):
@@ -116,38 +184,36 @@ class ArgfindGroup(Kernel):
         perm = p.ghost.get("transpose")
         rs = p.ghost.get("reshape")
         cur = p.ghost.get("cur_shape", sh)
-        t, u = fresh("t"), fresh("u")
-        # which original position sits at position k of the tensor that reaches reshape
+        t, u, w = fresh("t"), fresh("u"), fresh("w")
         src = (lambda kk: z3.Select(perm.arr, kk)) if perm is not None else (lambda kk: kk)
         if perm is not None:
+            U0 = p.ghost["U0"]
             eng.oblige("post:perm is a permutation of range(n): length n, entries in range, pairwise distinct", p,
                        z3.And(perm.n == n, z3.ForAll([t], z3.Implies(z3.And(0 <= t, t < n), z3.And(0 <= src(t), src(t) < n))),
                               z3.ForAll([t, u], z3.Implies(z3.And(0 <= t, t < u, u < n), src(t) != src(u)))), "post")
             eng.oblige("post:perm lists the un-bracketed positions first and the bracketed positions last, each group in increasing order", p,
                        z3.ForAll([t, u], z3.Implies(z3.And(0 <= t, t < u, u < n), z3.And(z3.Implies(isM(src(t)), isM(src(u))), z3.Implies(isM(src(t)) == isM(src(u)), src(t) < src(u))))), "post")
-        else:
-            eng.oblige("post:no transpose only if the bracketed positions already form one contiguous block", p,
-                       z3.ForAll([t, u, fresh("w")], z3.BoolVal(True)) if False else z3.ForAll([t, u], z3.Implies(z3.And(0 <= t, t < u, u < n, isM(t), isM(u)), z3.ForAll([k_ := fresh("w")], z3.Implies(z3.And(t < k_, k_ < u), isM(k_))))), "post")
-        eng.oblige("post:the bracketed axes of the tensor that reaches reshape are exactly positions marked_axes[0] .. marked_axes[0]+m-1", p,
-                   z3.And(m >= 1, 0 <= a0, a0 + m <= n, z3.ForAll([t], z3.Implies(z3.And(0 <= t, t < n), isM(src(t)) == z3.And(a0 <= t, t < a0 + m))),
-                          z3.ForAll([t], z3.Implies(z3.And(0 <= t, t < m), z3.Select(M.arr, t) == a0 + t))), "post")
+        # (without a transpose, contiguity of the bracketed positions is exactly the three block obligations below with src = identity)
+        eng.oblige("post:marked_axes is the contiguous block marked_axes[0] .. marked_axes[0]+m-1 inside the tensor", p,
+                   z3.And(m >= 1, 0 <= a0, a0 + m <= n, z3.ForAll([t], z3.Implies(z3.And(0 <= t, t < m), z3.Select(M.arr, t) == a0 + t))), "post")
+        eng.oblige("post:every position of that block holds a bracketed axis of the tensor that reaches reshape", p,
+                   p.ghost["block_is_bracketed"] if perm is None and "block_is_bracketed" in p.ghost else z3.ForAll([t], z3.Implies(z3.And(0 <= t, t < m), isM(src(a0 + t)))), "post")
+        eng.oblige("post:no position outside that block holds a bracketed axis", p, z3.ForAll([t], z3.Implies(z3.And(0 <= t, t < n, isM(src(t))), z3.And(a0 <= t, t < a0 + m))), "post")
         if rs is None:
             eng.oblige("post:classical.reshape is applied", p, z3.BoolVal(False), "post")
             return
         tin, ns = rs
         eng.oblige("post:reshape is applied to the (transposed) tensor", p, z3.BoolVal(isinstance(tin, SRec) and getattr(tin, "tag", "") == ("transposed" if perm is not None else "input")), "post")
         eng.oblige("post:the new shape keeps every un-bracketed length in place and replaces the bracketed block by one entry (the product length)", p,
-                   z3.And(ns.n == n - m + 1, z3.ForAll([t], z3.Implies(z3.And(0 <= t, t < ns.n), z3.Select(ns.arr, t) == z3.If(t < a0, z3.Select(cur, t), z3.If(t == a0, self.L, z3.Select(cur, t + m - 1)))))), "post")
+                   z3.And(ns.n == n - m + 1, self.new_shape_spec(ns, cur, a0, m)), "post")
         ax = p.lookup("axis")
         eng.oblige("post:the operation is applied along the position of the merged axis", p, ax.t == a0 if isinstance(ax, SInt) else z3.BoolVal(False), "post")
 
     def twin(self, tier):
-        """native: the real argfind.inner with recording classical ops, all bracket patterns up to rank 5 (6 in the thorough tier)"""
+        """native: the real argfind.inner through the public API, all bracket patterns up to rank 5 (6 in the thorough tier), against explicit loops"""
         import itertools
         import numpy as np
-        import einx._src.adapter.decomposednamedtensor_from_classical as D
-        import einx._src.namedtensor.stage3 as stage3
-        from einx._src.namedtensor import NamedTensor
+        import einx
         n, fails = 0, []
         maxr = 5 if tier == "quick" else 6
         for r in range(1, maxr + 1):
@@ -158,26 +224,14 @@ class ArgfindGroup(Kernel):
                 shape = tuple(range(2, 2 + r))
                 x = np.random.RandomState(r * 64 + sum(b << i for i, b in enumerate(pat))).rand(*shape)
                 names = [f"x{i}" for i in range(r)]
-                expr = stage3.List.create([stage3.Brackets(stage3.Axis(nm, s)) if b else stage3.Axis(nm, s) for nm, s, b in zip(names, shape, pat)])
                 m = sum(pat)
-                out = stage3.List.create([stage3.Axis(nm, s) for nm, s, b in zip(names, shape, pat) if not b] + [stage3.Brackets(stage3.Axis.new_unnamed(m))])
-
-                class C:
-                    transpose = staticmethod(lambda t, perm: np.transpose(t, perm))
-                    reshape = staticmethod(lambda t, s: np.reshape(t, s))
-                    divmod = staticmethod(lambda t, s: np.divmod(t, s))
-                    concatenate = staticmethod(lambda ts, axis: np.concatenate(ts, axis=axis))
-                    broadcast_to = staticmethod(lambda t, s: np.broadcast_to(t, s))
-
-                try:
-                    res = D.argfind(lambda t, axis: np.argmax(t, axis=axis), C)(NamedTensor(x, expr), out).value
-                except Exception as e:  # noqa
-                    fails.append({"detail": f"argfind.inner(brackets {pat}) raised {type(e).__name__}: {e}"})
-                    continue
-                # reference: explicit loops
                 un = [i for i, b in enumerate(pat) if not b]
-                mk = [i for i, b in enumerate(pat) if b]
-                ok = True
+                desc = " ".join(f"[{nm}]" if b else nm for nm, b in zip(names, pat)) + " -> " + " ".join([names[i] for i in un] + [f"[{m}]"])
+                try:
+                    res = np.asarray(einx.argmax(desc, x))
+                except Exception as e:  # noqa
+                    fails.append({"detail": f"einx.argmax({desc!r}, shape {shape}) raised {type(e).__name__}: {e}"})
+                    continue
                 for idx in itertools.product(*[range(shape[i]) for i in un]):
                     sl = [slice(None)] * r
                     for i, v in zip(un, idx):
@@ -185,10 +239,8 @@ class ArgfindGroup(Kernel):
                     sub = x[tuple(sl)]
                     best = np.unravel_index(np.argmax(sub), sub.shape)
                     if tuple(int(v) for v in np.asarray(res[idx]).reshape(-1)) != tuple(int(v) for v in best):
-                        ok = False
+                        fails.append({"detail": f"einx.argmax({desc!r}, shape {shape}): coordinates at {idx} are {np.asarray(res[idx]).tolist()}, the explicit-loop argmax is {list(map(int, best))}"})
                         break
-                if not ok:
-                    fails.append({"detail": f"argfind.inner(argmax, brackets {pat}, shape {shape}): coordinates differ from the explicit-loop argmax at {idx}"})
         return n, fails[:3]
 
 
